@@ -20,7 +20,9 @@ import (
 var c09Routes = []string{"/s", "/o/?t", "/d/{x}", "/e/?{x}", "/{m: **}", "/o/?{y}", "/o/t"}
 var c09APIs = []string{"Get", "Routes(GET,POST)", "Routes(GET;POST)", "Any", "Post"}
 var c09HdrSets = [][]string{{}, {"X-K", "^v$"}, {"X-K", "", "Y-K", "b"}, {"X-K", ""}}
-var c09ReqHdrs = []map[string]string{{}, {"X-K": "v"}, {"X-K": "w"}, {"X-K": ""}, {"X-K": "v", "Y-K": "b"}, {"X-K": "w", "Y-K": "xbx"}, {"X-K": "", "Y-K": "b"}}
+var c09ReqHdrs = []map[string]string{{}, {"X-K": "v"}, {"X-K": "w"}, {"X-K": ""}, {"X-K": "v", "Y-K": "b"}, {"X-K": "w", "Y-K": "xbx"}, {"X-K": "", "Y-K": "b"},
+	// a header sent in several fields (the values are separated by 0x1f here): the first field is the one http.Header.Get reports
+	{"X-K": "v\x1fw"}, {"X-K": "w\x1fv"}, {"X-K": "\x1f"}}
 var c09Paths = []string{"/s", "/o", "/o/t", "/o/u", "/d/v", "/e", "/e/v", "/zz", "/o/", "//s", "/d/v/w"}
 var c09Methods = []string{"GET", "POST", "PUT"}
 
@@ -145,6 +147,9 @@ func c09ApplyI(ops []c09Op, interleave bool) (w *c09World, ok bool) {
 func c09Eligible(pairs []string, hdr map[string]string) bool {
 	for i := 0; i+1 < len(pairs); i += 2 {
 		v := hdr[http.CanonicalHeaderKey(pairs[i])] // as http.Header.Get looks it up
+		if j := strings.IndexByte(v, 0x1f); j >= 0 {
+			v = v[:j] // several fields: the first one
+		}
 		if v == "" {
 			return false
 		}
@@ -160,7 +165,7 @@ func c09Serve(w *c09World, method, path string, hdr map[string]string) (hit int,
 	spy := &c01Spy{hdr: http.Header{}}
 	req := newReq(method, path)
 	for k, v := range hdr {
-		req.Header[http.CanonicalHeaderKey(k)] = []string{v}
+		req.Header[http.CanonicalHeaderKey(k)] = strings.Split(v, "\x1f")
 	}
 	func() {
 		defer func() { pan = recover() }()
@@ -305,7 +310,7 @@ func c09Run(r *core.Run) {
 	r.Bounds["max_registrations"] = c09MaxRegs
 	r.Bounds["routes"] = c09Routes
 	r.Bounds["apis"] = c09APIs
-	r.Assumptions = []string{"AutoHead is off (its HEAD twin is a separate flat registration by C11; not asserted here)", "one value per request header"}
+	r.Assumptions = []string{"AutoHead is off (its HEAD twin is a separate flat registration by C11; not asserted here)", "of a header sent in several fields the first field is the value (http.Header.Get)"}
 	var mu sync.Mutex
 	digests := map[string]string{}
 	firstHist := map[string][]c09Op{}
